@@ -436,11 +436,8 @@ func (c *v5Ctx) Done() <-chan struct{} {
 	}
 	c.arrived++
 	if c.arrived == c.cancelAt {
-		defer func() {
-			c.mu.Lock()
-			c.cancelLocked()
-			c.mu.Unlock()
-		}()
+		// this loader saw the context alive; the client cancels right after its look, while it is parked
+		c.cancelLocked()
 	}
 	c.parked++
 	c.mu.Unlock()
